@@ -218,6 +218,14 @@ class Deriver:
         raise Unclassifiable('expression ' + _txt(e))
 
     def copy_of(self, inner, ctx, how):
+        if isinstance(inner, ast.Name) and inner.id in ctx.get('aliases', {}):
+            # a local bound earlier to some expression (x = self.attr ; self.attr = x.copy()): classify the copy of
+            # what it was bound to, in the state of that moment
+            node, snap = ctx['aliases'][inner.id]
+            c2 = dict(ctx)
+            c2['state'] = snap
+            c2['aliases'] = {k: v for k, v in ctx['aliases'].items() if k != inner.id}
+            return self.copy_of(node, c2, how)
         if isinstance(inner, ast.Call) and isinstance(inner.func, ast.Attribute) and not inner.args \
                 and not inner.keywords and inner.func.attr in ('items', 'keys', 'values') and how != '.copy()':
             inner = inner.func.value          # dict(x.items()), list(x.values()) ... build a new container
@@ -297,6 +305,8 @@ class Deriver:
                         state = dict(state)
                         k = self.classify(st.value, ctx)
                         state[a] = (k[0], '%s line %d: %s  [%s]' % (ctx['where'], st.lineno, _txt(st), k[1]))
+                    elif isinstance(t, ast.Name) and isinstance(st.value, (ast.Attribute, ast.Name)):
+                        ctx.setdefault('aliases', {})[t.id] = (st.value, state)
                     elif isinstance(t, (ast.Tuple, ast.List)) and self.stores_tracked(t, tracked):
                         raise Unclassifiable('%s line %d: tuple assignment to a tracked attribute' %
                                              (ctx['where'], st.lineno))
